@@ -311,6 +311,16 @@ func Check(opts Options) int {
 		noInput := true
 		if worst.V.Status == "failed" {
 			reason = "counterexample found by " + worst.V.By
+		} else {
+			// say what each solver answered: an undischarged obligation is undecided, and why matters
+			var parts []string
+			for _, an := range worst.V.Answers {
+				parts = append(parts, fmt.Sprintf("%s=%s/%.1fs", an.Solver, an.Status, an.Secs))
+			}
+			if len(parts) > 9 {
+				parts = parts[:9]
+			}
+			reason += " (" + strings.Join(parts, " ") + ")"
 		}
 		rp := writeReplay(replayDir, name, doc)
 		viols = append(viols, violation{Obligation: name, Reason: reason, Replay: rp, NoInput: noInput})
